@@ -36,6 +36,8 @@ type Index map[string]Record
 // in the provided io.Reader.
 func NewIndex(fasta io.Reader) (Index, error) {
 	sc := bufio.NewScanner(fasta)
+	// A sequence may be written on one line, however long.
+	sc.Buffer(nil, math.MaxInt)
 	sc.Split(func(data []byte, atEOF bool) (advance int, token []byte, err error) {
 		if atEOF && len(data) == 0 {
 			return 0, nil, nil
